@@ -573,6 +573,22 @@ class Interp:
         return self.decide(("truthy", t))
 
     def compare(self, op, l, r, rnode=None, env=None):
+        # len(x) compared with 0 / 1 is the truthiness of the container x
+        for a, b, flip in ((l, r, False), (r, l, True)):
+            if a[0] == "call" and a[1] == ("global", "builtins.len") \
+                    and len(a[2]) == 1 and is_const(b) and b[1] in (0, 1) \
+                    and not isinstance(b[1], bool):
+                o = type(op)
+                if flip and o in (ast.Lt, ast.LtE, ast.Gt, ast.GtE):
+                    o = {ast.Lt: ast.Gt, ast.LtE: ast.GtE, ast.Gt: ast.Lt,
+                         ast.GtE: ast.LtE}[o]
+                nonempty = {(ast.Gt, 0): True, (ast.GtE, 1): True,
+                            (ast.NotEq, 0): True, (ast.Eq, 0): False,
+                            (ast.Lt, 1): False, (ast.LtE, 0): False}.get(
+                                (o, b[1]))
+                if nonempty is not None:
+                    t = self.term_truth(a[2][0])
+                    return t if nonempty else not t
         if isinstance(op, (ast.Eq, ast.NotEq)):
             v = self.equal(l, r)
             return v if isinstance(op, ast.Eq) else not v
@@ -827,7 +843,43 @@ class Interp:
                             % (type(node).__name__, self.fi.qualname,
                                getattr(node, "lineno", 0)))
 
-    def comprehension(self, node, env):
+    def comprehension(self, node, env, into=None):
+        if isinstance(node, (ast.ListComp, ast.GeneratorExp)) \
+                and len(node.generators) == 1 \
+                and not node.generators[0].is_async \
+                and (isinstance(node, ast.ListComp) or into is not None):
+            # [f(x) for x in xs if c]  is  r = []; for x in xs: if c:
+            # r.append(f(x))  -- the same events in the same order
+            g = node.generators[0]
+            env2 = dict(env)
+            if into is None:
+                self.fresh_counter += 1
+                res = ("newlist", self.fresh_counter)
+                self.path.builders[self.fresh_counter] = None
+            else:
+                res = into
+                if res[0] == "newlist":
+                    self.path.builders[res[1]] = None
+            it = self.eval(g.iter, env2)
+            if it[0] in ("tuple", "list") and len(it[1]) <= 4:
+                elems = list(it[1])
+            else:
+                elems = [("elem", it)]
+                self.path.effects.append(("loop-enter", node.lineno, it, node))
+            self.loop_depth += 1
+            try:
+                for el in elems:
+                    self.assign(g.target, el, env2, node)
+                    if all(self.truth(c, env2) for c in g.ifs):
+                        v = self.eval(node.elt, env2)
+                        self.path.effects.append(
+                            ("call", ("call", ("attr", res, "append"), (v,),
+                                      ()), node))
+            finally:
+                self.loop_depth -= 1
+            if elems and elems[0][0] == "elem" and elems[0][1] == it:
+                self.path.effects.append(("loop-exit", node.lineno, node))
+            return res
         env2 = dict(env)
         gens = []
         for g in node.generators:
@@ -882,6 +934,20 @@ class Interp:
     # ---------------------------------------------------------------- calls
     def call(self, node, env):
         f = node.func
+        if len(node.args) == 1 and not node.keywords and isinstance(
+                node.args[0], (ast.GeneratorExp, ast.ListComp)) \
+                and len(node.args[0].generators) == 1:
+            if isinstance(f, ast.Name) and f.id == "list" \
+                    and "list" not in env:
+                # list(f(x) for x in xs) is the list comprehension
+                self.fresh_counter += 1
+                res = ("newlist", self.fresh_counter)
+                return self.comprehension(node.args[0], env, into=res)
+            if isinstance(f, ast.Attribute) and f.attr == "extend":
+                # r.extend(f(x) for x in xs) is the appending loop
+                recv = self.eval(f.value, env)
+                self.comprehension(node.args[0], env, into=recv)
+                return const(None)
         args = tuple(self.eval(a, env) for a in node.args)
         kws = tuple((k.arg, self.eval(k.value, env)) for k in node.keywords)
         # closures defined in this activation
@@ -1469,25 +1535,15 @@ def carried_state_policy(fnode):
             if loop.orelse or own_breaks(loop):
                 r = "twice"
             else:
-                tgt = {n.id for n in ast.walk(loop.target)
-                       if isinstance(n, ast.Name)}
-                stored = set()
-                inside = set()
-                for b in loop.body:
-                    for n in ast.walk(b):
-                        inside.add(n)
-                        if isinstance(n, ast.Name) and isinstance(
-                                n.ctx, ast.Store):
-                            stored.add(n.id)
-                stored -= tgt
-                if stored:
-                    for n in ast.walk(fnode):
-                        if isinstance(n, ast.Name) and isinstance(
-                                n.ctx, ast.Load) and n.id in stored \
-                                and n not in inside and getattr(
-                                    n, "lineno", 0) > loop.lineno:
-                            r = "twice"
-                            break
+                from . import cfg as _cfg
+                if "g" not in cache:
+                    try:
+                        cache["g"] = _cfg.CFG(fnode)
+                    except Exception:
+                        cache["g"] = None
+                if cache["g"] is not None and _cfg.loop_carried_names(
+                        cache["g"], loop):
+                    r = "twice"
         cache[loop] = r
         return r
     return policy
